@@ -3,6 +3,7 @@
    Model/StreamBody.v (HTTP/2, HTTP/3 frame events), Model/StreamWire.v (HTTP/3 stream bytes). *)
 From ReqV Require Import Lib.Bytes Lib.BigEndian Model.BodyFraming Model.StreamBody Model.StreamWire
   Proofs.BodyFramingProofs Proofs.QuicVarintProofs Proofs.StreamBodyProofs Proofs.StreamWireProofs.
+From ReqV Require Model.H2Frame Proofs.StreamWireH2Proofs.
 Local Open Scope nat_scope.
 
 (* HTTP/1.1, Content-Length and chunked framing (every body, every chunk partition with any
@@ -118,6 +119,53 @@ Theorem C03_h2_dead_conn_not_reused : forall evs,
   (h2_ending evs = E2EndStream -> h2_conn_usable evs = true).
 Proof. exact h2_conn_usable_thm. Qed.
 Print Assumptions C03_h2_dead_conn_not_reused.
+
+(* ===================== HTTP/2, connection bytes (every cut offset) =====================
+   fs ++ [last]: any sequence of DATA frames as the Framer writes them (any payloads, any
+   padding; only the last one carries END_STREAM), W = their bytes on the connection, each frame
+   within the reader's frame-size limit.  h2_wire_events parses whatever part of W arrived with
+   Model/H2Frame.v read_frames (C05's model of Framer.ReadFrame) and keeps stream sid's events.
+   For EVERY cut offset k < length W (frame boundary, inside a frame header, inside a payload or
+   its padding): the stream ends in "connection ended", reading the body is an error for every
+   declared length and for none, and what was delivered is a prefix of the body. *)
+Theorem C03_h2_every_cut_detected : forall sid maxr fs last W k cl,
+  (0 < sid < 2147483648)%N -> StreamWireH2Proofs.rendered sid maxr (fs ++ [last]) W ->
+  Forall (fun f => StreamWireH2Proofs.d_es f = false) fs -> k < length W ->
+  let evs := h2_wire_events sid maxr (firstn k W) in
+  h2_ending evs = E2ConnEnd /\
+  snd (h2_read cl false evs) <> H2Clean /\ snd (h2_read cl false evs) <> H2Pending /\
+  exists m, fst (h2_read cl false evs) = firstn m (StreamWireH2Proofs.h2_body (fs ++ [last])).
+Proof. exact StreamWireH2Proofs.h2_wire_truncation_detected_thm. Qed.
+Print Assumptions C03_h2_every_cut_detected.
+
+Theorem C03_h2_complete_exact : forall sid maxr fs last W cl,
+  (0 < sid < 2147483648)%N -> StreamWireH2Proofs.rendered sid maxr (fs ++ [last]) W ->
+  Forall (fun f => StreamWireH2Proofs.d_es f = false) fs -> StreamWireH2Proofs.d_es last = true ->
+  cl = None \/ cl = Some (lenN (StreamWireH2Proofs.h2_body (fs ++ [last]))) ->
+  h2_read cl false (h2_wire_events sid maxr W) = (StreamWireH2Proofs.h2_body (fs ++ [last]), H2Clean).
+Proof. exact StreamWireH2Proofs.h2_wire_complete_thm. Qed.
+Print Assumptions C03_h2_complete_exact.
+
+(* non-vacuity: two concrete frames (the second padded, END_STREAM) satisfy `rendered`; the
+   whole stream reads back, cuts inside the last frame's padding / at the frame boundary /
+   inside the first frame header are errors *)
+Definition wbytes (r : H2Frame.wres) : bytes := match r with H2Frame.WOk b => b | H2Frame.WErr _ => [] end.
+Example C03_h2_wire_nonvacuous :
+  let f1 := StreamWireH2Proofs.mkD false (bs "hel") None in
+  let f2 := StreamWireH2Proofs.mkD true (bs "lo") (Some [x00; x00]) in
+  let W := wbytes (H2Frame.run_wcall (StreamWireH2Proofs.d_call 1 f1)) ++
+           wbytes (H2Frame.run_wcall (StreamWireH2Proofs.d_call 1 f2)) ++ [] in
+  StreamWireH2Proofs.rendered 1 16384 [f1; f2] W /\ length W = 26 /\
+  h2_read (Some 5%N) false (h2_wire_events 1 16384 W) = (bs "hello", H2Clean) /\
+  h2_read (Some 5%N) false (h2_wire_events 1 16384 (firstn 25 W)) = (bs "hel", H2UnexpectedEOF) /\
+  h2_read None false (h2_wire_events 1 16384 (firstn 12 W)) = (bs "hel", H2UnexpectedEOF) /\
+  h2_read None false (h2_wire_events 1 16384 (firstn 5 W)) = ([], H2UnexpectedEOF).
+Proof.
+  cbv zeta. split; [|vm_compute; repeat split].
+  apply StreamWireH2Proofs.R_cons; [vm_compute; reflexivity|vm_compute; discriminate|].
+  apply StreamWireH2Proofs.R_cons; [vm_compute; reflexivity|vm_compute; discriminate|].
+  apply StreamWireH2Proofs.R_nil.
+Qed.
 
 (* ===================== HTTP/3, frame events (body.Read over stream.Read) ===================== *)
 (* success iff FIN, every DATA frame whole, DATA total = declared length (if any) *)
